@@ -503,7 +503,7 @@ func TestC17HandlerLayouts(t *testing.T) {
 // before and after others - and every single result is compared with the independent implementation.
 func TestC17Sequences(t *testing.T) {
 	rec := evid.For("C17")
-	runRapid(t, 1500, 15000, func(rt *rapid.T) {
+	runRapid(t, 1500, 40000, func(rt *rapid.T) {
 		c := rec.Begin()
 		c.Class("sequence")
 		base := rapid.SampledFrom([]string{"uinit", "uusdc", "ibc/ABCDEF", "x", "token0", "a1b"}).Draw(rt, "base")
@@ -615,7 +615,7 @@ func TestC17Concurrent(t *testing.T) {
 // sequence range) with the independent implementation must be paid.
 func TestC17HandlerFormat(t *testing.T) {
 	rec := evid.For("C17")
-	runRapid(t, 600, 6000, func(rt *rapid.T) {
+	runRapid(t, 600, 20000, func(rt *rapid.T) {
 		c := rec.Begin()
 		c.Class("handler-format")
 		e := henv.NewL1(henv.L1Options{NoHook: true})
@@ -694,7 +694,7 @@ func TestC17HandlerFormat(t *testing.T) {
 // list exactly those pairs.
 func TestC17Queries(t *testing.T) {
 	rec := evid.For("C17")
-	runRapid(t, 150, 2500, func(rt *rapid.T) {
+	runRapid(t, 150, 10000, func(rt *rapid.T) {
 		c := rec.Begin()
 		c.Class("queries")
 		e := henv.NewL1(henv.L1Options{NoHook: true})
